@@ -355,8 +355,22 @@ def splice_fn(text, spec=None, ret=None, loops=None, before=None, after=None, re
     marks = []  # (line_index, 'before'|'after', ghost_lines, label)
     for k, snippet, ghost in (before or []):
         marks.append((find_line(k, snippet), 0, ghost, f"ghost-before:{snippet}"))
+    def stmt_end(i):
+        """index of the line on which the statement starting on line i ends (delimiter depth back to 0 and a ';' or a closing '}' seen)"""
+        depth = 0
+        for j in range(i, len(lines)):
+            code = re.sub(r'"(?:[^"\\]|\\.)*"', '""', lines[j].split("//")[0])
+            for ch in code:
+                if ch in "([{": depth += 1
+                elif ch in ")]}": depth -= 1
+            if depth <= 0 and (code.rstrip().endswith(";") or code.rstrip().endswith("}")):
+                return j
+        return i
     for k, snippet, ghost in (after or []):
-        marks.append((find_line(k, snippet) + 1, 1, ghost, f"ghost-after:{snippet}"))
+        if snippet.startswith("stmt:"):
+            marks.append((stmt_end(find_line(k, snippet[5:].strip())) + 1, 1, ghost, f"ghost-after-stmt:{snippet[5:].strip()}"))
+        else:
+            marks.append((find_line(k, snippet) + 1, 1, ghost, f"ghost-after:{snippet}"))
     marks.sort(key=lambda x: (x[0], x[1]))
     out = []
     mi = 0
